@@ -16,6 +16,18 @@ def log(*a):
     print(*a, flush=True)
 
 
+def raise_nofile():
+    try:
+        import resource
+        soft, hard = resource.getrlimit(resource.RLIMIT_NOFILE)
+        resource.setrlimit(resource.RLIMIT_NOFILE, (min(hard, 65536) if hard > 0 else 65536, hard))
+    except Exception:
+        pass
+
+
+raise_nofile()
+
+
 def goenv():
     e = dict(os.environ)
     for k in ("GOTOOLCHAIN", "GOSUMDB"):
